@@ -1928,21 +1928,24 @@ func (p *wat2cWorker) buildFunc_ins(w io.Writer, fn *ast.Func, stk *valueTypeSta
 	case token.INS_F32_CEIL:
 		sp0 := stk.Pop(token.F32)
 		ret0 := stk.Push(token.F32)
-		fmt.Fprintf(w, "%sR%d.f32 = ceilf(R%d.f32); // %s\n",
+		// a NaN operand must come back quiet (x + x): the inlined ceilf returns a signalling NaN unchanged
+		fmt.Fprintf(w, "%[1]sR%[2]d.f32 = (R%[3]d.f32 != R%[3]d.f32)? R%[3]d.f32 + R%[3]d.f32: ceilf(R%[3]d.f32); // %[4]s\n",
 			indent, ret0, sp0,
 			insString(i),
 		)
 	case token.INS_F32_FLOOR:
 		sp0 := stk.Pop(token.F32)
 		ret0 := stk.Push(token.F32)
-		fmt.Fprintf(w, "%sR%d.f32 = floorf(R%d.f32); // %s\n",
+		// a NaN operand must come back quiet (x + x): the inlined floorf returns a signalling NaN unchanged
+		fmt.Fprintf(w, "%[1]sR%[2]d.f32 = (R%[3]d.f32 != R%[3]d.f32)? R%[3]d.f32 + R%[3]d.f32: floorf(R%[3]d.f32); // %[4]s\n",
 			indent, ret0, sp0,
 			insString(i),
 		)
 	case token.INS_F32_TRUNC:
 		sp0 := stk.Pop(token.F32)
 		ret0 := stk.Push(token.F32)
-		fmt.Fprintf(w, "%sR%d.f32 = truncf(R%d.f32); // %s\n",
+		// a NaN operand must come back quiet (x + x): the inlined truncf returns a signalling NaN unchanged
+		fmt.Fprintf(w, "%[1]sR%[2]d.f32 = (R%[3]d.f32 != R%[3]d.f32)? R%[3]d.f32 + R%[3]d.f32: truncf(R%[3]d.f32); // %[4]s\n",
 			indent, ret0, sp0,
 			insString(i),
 		)
@@ -2036,21 +2039,24 @@ func (p *wat2cWorker) buildFunc_ins(w io.Writer, fn *ast.Func, stk *valueTypeSta
 	case token.INS_F64_CEIL:
 		sp0 := stk.Pop(token.F64)
 		ret0 := stk.Push(token.F64)
-		fmt.Fprintf(w, "%sR%d.f64 = ceil(R%d.f64); // %s\n",
+		// a NaN operand must come back quiet (x + x): the inlined ceil returns a signalling NaN unchanged
+		fmt.Fprintf(w, "%[1]sR%[2]d.f64 = (R%[3]d.f64 != R%[3]d.f64)? R%[3]d.f64 + R%[3]d.f64: ceil(R%[3]d.f64); // %[4]s\n",
 			indent, ret0, sp0,
 			insString(i),
 		)
 	case token.INS_F64_FLOOR:
 		sp0 := stk.Pop(token.F64)
 		ret0 := stk.Push(token.F64)
-		fmt.Fprintf(w, "%sR%d.f64 = floor(R%d.f64); // %s\n",
+		// a NaN operand must come back quiet (x + x): the inlined floor returns a signalling NaN unchanged
+		fmt.Fprintf(w, "%[1]sR%[2]d.f64 = (R%[3]d.f64 != R%[3]d.f64)? R%[3]d.f64 + R%[3]d.f64: floor(R%[3]d.f64); // %[4]s\n",
 			indent, ret0, sp0,
 			insString(i),
 		)
 	case token.INS_F64_TRUNC:
 		sp0 := stk.Pop(token.F64)
 		ret0 := stk.Push(token.F64)
-		fmt.Fprintf(w, "%sR%d.f64 = trunc(R%d.f64); // %s\n",
+		// a NaN operand must come back quiet (x + x): the inlined trunc returns a signalling NaN unchanged
+		fmt.Fprintf(w, "%[1]sR%[2]d.f64 = (R%[3]d.f64 != R%[3]d.f64)? R%[3]d.f64 + R%[3]d.f64: trunc(R%[3]d.f64); // %[4]s\n",
 			indent, ret0, sp0,
 			insString(i),
 		)
